@@ -96,6 +96,12 @@ PARSING_QUERIES = [
     ('select-and-update', 'select a1 update a2 = 1'),
     ('order-by-in-update', 'update a1 = "x" order by a1'),
     ('assignment-in-where', 'select a1 where a1 = "x"'),
+    ('assignment-in-where-parenthesised', 'select a1 where (a1 = "x")'),
+    ('assignment-in-where-nested', 'select a1 where a2 == "y" and (a1 = "x" or a2 == "z")'),
+    ('assignment-in-where-after-call', 'select a1 where len(a1) = 1'),
+    ('assignment-in-where-no-spaces', 'select a1 where a1 == "x" and a2="y"'),
+    ('assignment-in-where-under-not', 'select a1 where not(a1 =  "x")'),
+    ('assignment-in-update-where', 'update a1 = "k" where (a2 = "y")'),
     ('bad-limit', 'select a1 limit x'),
     ('except-with-join', 'select * except a1 join b on a1 == b1'),
     ('unknown-update-field', 'update a.nosuch = 1'),
